@@ -7,12 +7,57 @@ GENS = ["Consts", "Steps"]
 MODULES = ["GV.Props.C18"]
 
 
+def stamp_correspondence(chk, tier, E, diffs):
+    """the decision taken under the lock (real checkVersion && fileExists on real files) vs the model's `reusable`, over
+    stamp files in every state a crash or an upgrade can leave: none, empty, every proper prefix, other Go version, other
+    patch version, other binary size, extra bytes, missing final newline; binary missing / empty / truncated / complete"""
+    from . import c01model
+    from .c01model import hx
+    orc, err = core.build_oracle()
+    S = c01model.OracleSession(orc, E.env())
+    rnd = random.Random(chk.seed * 89 + 2)
+    mops, expect = [], []
+    try:
+        for _ in range(6 if tier == "quick" else 60):
+            gv = rnd.choice(["go1.26.2", "go1.26", "go1.27rc1", "devel go1.27-abcdef"])
+            pv = "".join(rnd.choice("0123456789abcdef") for _ in range(rnd.choice([8, 40])))
+            size = rnd.choice([0, 1, 9, 10, 4096, 8123456])
+            good = S.ask("linkstamp %d %s %s" % (size, hx(gv), hx(pv)))
+            mops.append("linkstampm %d %s %s" % (size, hx(gv), hx(pv))); expect.append(good)
+            raw = bytes.fromhex(good) if good != "-" else b""
+            stamps = ["none", "-", good, good[:-2] or "-", good + "0a", hx((gv + "x " + pv + "\n%d\n" % size)), hx((gv + " " + pv + "0\n%d\n" % size)),
+                      hx((gv + " " + pv + "\n%d\n" % (size + 1))), hx((gv + " " + pv + "\n")), hx(gv + " " + pv)]
+            stamps += [raw[:k].hex() or "-" for k in sorted(set(rnd.randrange(0, len(raw)) for _ in range(4)))]
+            sizes = [-1, 0, size, size + 1, max(0, size - 1), size // 2]
+            for stp in stamps:
+                for sz in sizes:
+                    a = S.ask("linkreuse %s %d %s %s" % (stp, sz, hx(gv), hx(pv)))
+                    mops.append("linkreusem %s %d %s %s" % (stp, sz, hx(gv), hx(pv))); expect.append(a)
+    finally:
+        S.close()
+    ans = c01model.model_answers(mops)
+    st = chk.cov["streams"].setdefault("oracle:linker-stamp", {"cases": 0, "reused": 0, "disagreements": 0})
+    for o, e, m in zip(mops, expect, ans):
+        st["cases"] += 1
+        if e == "1":
+            st["reused"] += 1
+        if e != m:
+            st["disagreements"] += 1
+            diffs.append({"op": o[:200], "impl": e[:100], "model": m[:100]})
+    chk.count_cases(mops)
+
+
 def main(tier, replay=None):
     chk = core.Check(PID, tier)
     core.build_tools()
     chk.proofs(GENS, MODULES)
     E = e2e.E2E("c18")
     fails = []
+    STAMPDIFFS = []
+    stamp_correspondence(chk, tier, E, STAMPDIFFS)
+    if STAMPDIFFS:
+        chk.cov["broken"].append({"kind": "correspondence", "what": "%d disagreements on the linker stamp decision, first: %s" % (len(STAMPDIFFS), STAMPDIFFS[0])})
+        chk.log("correspondence broken:", str(STAMPDIFFS[0])[:300])
     try:
         rnd = random.Random(chk.seed * 47 + 9)
         prog = c06.program(rnd)
